@@ -32,6 +32,7 @@ class Scope(list[Any]):
 
     owner: "NixExpression | None"
     weak: bool
+    parameters: frozenset[str]
 
     def __init__(
         self, items: Iterable[Any] = (), *, owner: "NixExpression | None" = None
@@ -40,6 +41,9 @@ class Scope(list[Any]):
         self.owner: "NixExpression | None" = owner
         # `with` environments are weak: any enclosing let/rec/argument binding wins.
         self.weak = False
+        # Names bound by the head of an un-applied lambda: they shadow outer
+        # scopes but have no value to resolve to.
+        self.parameters = frozenset()
 
     def _find_binding_index(self, key: str) -> int | None:
         from nix_manipulator.expressions.binding import Binding
